@@ -259,7 +259,7 @@ Section Run.
     destruct (run_loop_ok cs [] [] ps_empty [] [] [] Hcs linv_init) as (out & Eo & Hp).
     exists out. split. exact Eo. cbn [app] in Hp.
     destruct Hp as (P1 & P2 & P3 & P4 & P5 & P6).
-    unfold l1_run.
+    unfold l1_run, l1_run_gen.
     apply andb_true_iff; split; [apply andb_true_iff; split; [apply andb_true_iff; split; [apply andb_true_iff; split|]|]|].
     - exact P1.
     - exact P2.
@@ -274,3 +274,36 @@ Section Run.
     - apply forallb_forall. intros l Hl. apply zmem_In. apply P6. exact Hl.
   Qed.
 End Run.
+
+(* ---------------------------------------------------------------------------------------------- *)
+(* any output that passes l1_run has an ALL row whose sum of block lengths is within the covered span *)
+Lemma fold_row_add_bsum : forall rows x, d_bsum (fold_left row_add rows x) = d_bsum x + zsum (map d_bsum rows).
+Proof.
+  induction rows as [|r rows IH]; intros x; cbn [fold_left map]. unfold zsum. cbn. lia.
+  rewrite IH. unfold row_add at 1. cbn [d_bsum]. unfold zsum. cbn [fold_right]. lia.
+Qed.
+
+Lemma int_eqb_bsum : forall a b, dstats_int_eqb a b = true -> d_bsum a = d_bsum b.
+Proof.
+  intros a b H. unfold dstats_int_eqb, dstats_eqb in H. cbn [d_variants d_phased d_unphased d_singletons d_blocks d_vmin d_vmax
+    d_vsum d_bmin d_bmax d_bsum d_het d_hetsnv d_phsnv d_n50] in H.
+  repeat (apply andb_true_iff in H; destruct H as [H ?]).
+  repeat match goal with E : (_ =? _) = true |- _ => apply Z.eqb_eq in E end. assumption.
+Qed.
+
+Theorem l1_run_all_span : forall only_snvs groups given out,
+  l1_run only_snvs groups given out = true -> all_span_ok only_snvs groups out = true.
+Proof.
+  intros o groups given out H. unfold l1_run, l1_run_gen in H.
+  repeat (apply andb_true_iff in H; destruct H as [H ?]).
+  unfold all_span_ok. unfold all_row_ok in *. destruct (o_all out) as [a|]. 2: reflexivity.
+  apply Z.leb_le. match goal with E : dstats_int_eqb a _ = true |- _ => rewrite (int_eqb_bsum _ _ E) end.
+  unfold row_sum. rewrite fold_row_add_bsum. cbn [row_zero d_bsum]. rewrite map_map.
+  rewrite forallb_forall in H. clear - H.
+  induction (o_rows out) as [|row rows IH]. unfold zsum. cbn. lia.
+  cbn [map]. unfold zsum in *. cbn [fold_right].
+  assert (Hrow := H row (or_introl eq_refl)). cbv zeta in Hrow. apply andb_true_iff in Hrow. destruct Hrow as [Hrow _].
+  unfold l1_row in Hrow. cbv zeta in Hrow. apply andb_true_iff in Hrow. destruct Hrow as [Hrow _].
+  apply andb_true_iff in Hrow. destruct Hrow as [_ Hlen]. apply lengths_ok_prop in Hlen.
+  specialize (IH (fun r Hr => H r (or_intror Hr))). lia.
+Qed.
